@@ -1233,7 +1233,112 @@ def oracle_case(case):
         return oracle_getters_seq([tuple(x) for x in case["seq"]], case.get("flip", 0))
     if k == "set-etag-seq":
         return oracle_set_etag_seq([tuple(x) for x in case["args"]])
+    if k == "str-roundtrip":
+        return oracle_str_roundtrip(case["matcher"], case["probes"])
+    if k == "ser-parse":
+        return oracle_ser_parse(tuple(case["arg"]))
     return None
+
+
+# =========================================================================== the written form of a matcher (Model/C11_str.v)
+IMPORTS_STR = IMPORTS + ["Webob.Model.C11_str"]
+
+
+def mk_matcher(spec):
+    from webob.etag import ETagMatcher, AnyETag, NoETag
+    return AnyETag if spec == "any" else NoETag if spec == "no" else ETagMatcher(list(spec))
+
+
+def cmatcher(spec):
+    return "MAny" if spec == "any" else "MNo" if spec == "no" else "(MTags %s)" % clist(cstr(t) for t in spec)
+
+
+def impl_str_roundtrip(spec, probes):
+    """str(m); ETagMatcher.parse(str(m)) in both modes; req.if_match = m / req.if_none_match = m, then what is stored,
+    what the getters answer, membership of the probes; membership in m itself."""
+    from webob.etag import ETagMatcher
+    m = mk_matcher(spec)
+    text = str(m)
+    req = mk_request()
+    req.if_match = m
+    req.if_none_match = m
+    h, h2 = req.environ.get("HTTP_IF_MATCH"), req.environ.get("HTTP_IF_NONE_MATCH")
+    if h != h2:
+        return Err("setters-disagree")
+    im, inm = req.if_match, req.if_none_match
+    return [text, v_matcher(ETagMatcher.parse(text, strong=True)), v_matcher(ETagMatcher.parse(text, strong=False)), h,
+            v_matcher(im), [p in im for p in probes], v_matcher(inm), [p in inm for p in probes], [p in m for p in probes]]
+
+
+def oracle_str_roundtrip(spec, probes):
+    """The statement on the real code, for quote-free tags: ETagMatcher.parse(str(m)) has exactly m's tags in m's order
+    (both modes); `p in parse(str(m))` iff `p in m`; after req.if_none_match = m membership is m's; after req.if_match = m
+    too, unless m is written as the empty string (ETagMatcher([]) / NoETag: stated exception, C11_im_set_get_empty_refuted)."""
+    from webob.etag import ETagMatcher
+    if isinstance(spec, list) and any('"' in t for t in spec):
+        return None
+    try:
+        m = mk_matcher(spec)
+        text = str(m)
+        for strong in (True, False):
+            back = ETagMatcher.parse(text, strong=strong)
+            if isinstance(spec, list) and (type(back) is not ETagMatcher or list(back.etags) != list(spec)):
+                return ("str-roundtrip:tags", "ETagMatcher.parse(str(ETagMatcher(%r)), strong=%r) = %r (text %r)" % (
+                    spec, strong, v_matcher(back), text))
+            for p in probes:
+                if (p in back) is not (p in m):
+                    return ("str-roundtrip:membership", "(%r in ETagMatcher.parse(str(m), strong=%r)) is %r but (%r in m) is %r "
+                            "for m = %r (text %r)" % (p, strong, p in back, p, p in m, spec, text))
+        req = mk_request()
+        req.if_match = m
+        req.if_none_match = m
+        for which in ("if_none_match", "if_match"):
+            if which == "if_match" and text == "":
+                continue
+            got = getattr(req, which)
+            for p in probes:
+                if (p in got) is not (p in m):
+                    return ("str-roundtrip:" + which, "after request.%s = %r: (%r in request.%s) is %r but (%r in m) is %r" % (
+                        which, spec, p, which, p in got, p, p in m))
+    except Exception as e:  # noqa
+        return "str-roundtrip:raises:" + type(e).__name__, "matcher %r: %s: %s" % (spec, type(e).__name__, e)
+    return None
+
+
+def impl_ser_parse(arg):
+    from webob.descriptors import serialize_etag_response, parse_etag_response
+    text = serialize_etag_response(arg[1] if arg[0] == "str" else (arg[1], arg[2]))
+    return [text, parse_etag_response(text), parse_etag_response(text, strong=True)]
+
+
+def oracle_ser_parse(arg):
+    """serialize_etag_response -> parse_etag_response = id for values without DQUOTE / CR / LF; W/ iff not strong"""
+    from webob.descriptors import serialize_etag_response, parse_etag_response
+    v = arg[1]
+    if '"' in v or "\n" in v or "\r" in v:
+        return None
+    strong = True if arg[0] == "str" else bool(arg[2])
+    try:
+        text = serialize_etag_response(v if arg[0] == "str" else (v, arg[2]))
+        if text != ("" if strong else "W/") + '"' + v + '"':
+            return "ser-parse:text", "serialize_etag_response(%r) = %r" % (arg[1:], text)
+        if parse_etag_response(text) != v:
+            return "ser-parse:value", "parse_etag_response(serialize_etag_response(%r)) = %r" % (arg[1:], parse_etag_response(text))
+        if parse_etag_response(text, strong=True) != (v if strong else None):
+            return "ser-parse:strong", "parse_etag_response(%r, strong=True) = %r" % (text, parse_etag_response(text, strong=True))
+    except Exception as e:  # noqa
+        return "ser-parse:raises:" + type(e).__name__, "%r: %s: %s" % (arg, type(e).__name__, e)
+    return None
+
+
+STR_TAG_ALPHA = ["a", "b", ",", " ", "W/", "\\", "*", "\xe9", "\xff", "\x80", "~", "!", "#", ", ", "\t", "w/", "/"]
+STR_TAG_WILD = STR_TAG_ALPHA + ['"', '"', "\n", "\r", "\x1f", "\x85", "\u3000", "\u0100", '\\"', '", "', 'W/"']
+
+
+def r_str_tags(rng, wild=False):
+    """0..6 tags; legal ones (etagc + commas/spaces/W/ inside, the empty tag, STAR) or, wild, with DQUOTE / LF / controls"""
+    alpha = STR_TAG_WILD if wild else STR_TAG_ALPHA
+    return ["".join(rng.choice(alpha) for _ in range(rng.randrange(0, 4))) for _ in range(rng.randrange(0, 7))]
 
 
 # =========================================================================== generators
@@ -1341,7 +1446,7 @@ def corr_values(ctx, rng, n):
 # ---- traceability: what is modelled by hand / regenerated / only exercised by the oracle
 MODELLED = [
     # etag.py: getters and matchers (Model: etag_getter, if_match, if_none_match, contains, matcher_parse)
-    "webob.etag:etag_property",                    # fget: environ.get(key); `not value` -> default; else ETagMatcher.parse
+    "webob.etag:etag_property",                    # fget: environ.get(key); `not value` -> default; else ETagMatcher.parse; fset: None -> pop, else environ[key] = str(val) (etag_fset)
     "webob.request:BaseRequest.if_match",          # = etag_property("HTTP_IF_MATCH", AnyETag, strong=True).fget
     "webob.request:BaseRequest.if_none_match",     # = etag_property("HTTP_IF_NONE_MATCH", NoETag, strong=False).fget
     "webob.etag:_AnyETag.__contains__",
@@ -1361,6 +1466,10 @@ MODELLED = [
     "webob.descriptors:header_getter",             # fget first matching header; fset: delete, refuse CR/LF, append -- _etag_raw
     "webob.response:Response.etag",
     "webob.response:Response.etag_strong",
+    # etag.py: the written form (Model/C11_str.v: matcher_str, etag_fset)
+    "webob.etag:ETagMatcher.__str__",              # ", ".join('"%s"' % t): no W/, no escaping
+    "webob.etag:_AnyETag.__str__",                 # "*"
+    "webob.etag:_NoETag.__str__",                  # ""
 ]
 REGENERATED = [
     "webob.etag:_rx_etag_list",                    # the pattern ETagMatcher.parse runs findall with -> lst_pre / lst_esc / lst_excl
@@ -1374,7 +1483,6 @@ ORACLE_ONLY = [
     "webob.descriptors:serialize_if_range",        # request.if_range = value (history-request, via="attr")
     "webob.request:BaseRequest.blank",             # headers={...} -> HTTP_* environ keys
     "webob.response:Response.__init__",            # Response(etag=...)
-    "webob.etag:ETagMatcher.__str__",
 ]
 
 
@@ -1460,6 +1568,73 @@ def run(ctx):
         _corr(ctx, "raw-etag", "obs_raw_etag", cases, "(option str)")
 
     stage('raw-etag', corr_raw_etag)
+
+    def _corr_str(name, fn, cases, in_type):
+        bad = ctx.corr(name, IMPORTS_STR, fn, cases, in_type=in_type)
+        for i in bad[:8]:
+            case = cases[i][2]
+            r = oracle_case(case)
+            if r:
+                ctx.fail(r[0], r[1], case, True, "corr")
+            else:
+                ctx.broken.append("correspondence %s: model and implementation disagree on %s (implementation: %r)" % (
+                    name, json.dumps(case), cases[i][1]))
+        return bad
+
+    def corr_str_roundtrip():
+        # 4b. str(matcher) -> ETagMatcher.parse, and request.if_match / if_none_match = matcher -> getter
+        r4 = ctx.sub_rng("corr-str")
+        specs = ["any", "no", [], [""], ["*"], ["a"], ["a", "b"], ["a, b"], ["a,b", " "], ["W/"], ['W/"a'], ["\\"], ["a\\", "b"],
+                 ["\xe9", "\xff\x80"], ["", ""], ["*", "*"], ['a"b'], ['"'], ['", "'], ["a\nb"], ["a", "a"], ["\\", "\\\\"],
+                 ["a", "", "b", "W/x", "*", ", "], ['\\"'], ["W/", "a"], [" "], [","], [", "], ["\t"]]
+        for i in range(n):
+            specs.append(r_str_tags(r4, wild=(i % 5 == 4)))
+        cases = []
+        for spec in specs:
+            tags = spec if isinstance(spec, list) else []
+            probes = [None, "", "a", "*", "x"] + list(tags[:6])
+            if tags:
+                probes += ['"%s"' % tags[0], tags[0][:-1], tags[0] + ", ", ", ".join(tags[:2])]
+            cases.append((cpair(cmatcher(spec), clist(costr(p) for p in probes)), impl_str_roundtrip(spec, probes),
+                          {"kind": "str-roundtrip", "matcher": spec, "probes": probes}))
+        _corr_str("str-roundtrip", "(fun c : matcher * list (option str) => obs_str_roundtrip (fst c) (snd c))", cases,
+                  "(matcher * list (option str))")
+        # the statement itself on the same matchers (real code only)
+        cnt = nt = 0
+        for spec in specs:
+            tags = spec if isinstance(spec, list) else []
+            probes = [None, "", "a", "*"] + list(tags) + [t + "x" for t in tags[:2]] + [t[1:] for t in tags[:2]]
+            r = oracle_str_roundtrip(spec, probes)
+            cnt += 1
+            nt += 1 if len(tags) > 1 or any(not t.isalnum() for t in tags) else 0
+            if r:
+                ctx.fail(r[0], r[1], {"kind": "str-roundtrip", "matcher": spec, "probes": probes}, True, "str-roundtrip")
+        ctx.oracle_count("str-roundtrip", cnt, nt)
+
+    stage('str-roundtrip', corr_str_roundtrip)
+
+    def corr_ser_parse():
+        # 4c. serialize_etag_response / parse_etag_response called directly (not through Response)
+        r4 = ctx.sub_rng("corr-ser-parse")
+        args = [("str", v) for v in ["", "a", '"a"', 'W/"a"', 'a"b', "a\\", "a\nb", "a\rb", ' "a"', 'W/"a', "*", '"a', ',"a"',
+                                     "W/", "W/a", "a, b", "\xe9\xff", '\\"', "\\\\", '"a\\"', '"a" x', "\n"]]
+        args += [("pair", v, st) for v in ["", "a", '"a"', 'W/"a"', 'a"b', "a\\", "a\nb", '\\"', "W/", "a, b", "*", "\xe9"]
+                 for st in (True, False)]
+        for i in range(n):
+            tags = r_str_tags(r4, wild=(i % 4 == 3)) or [""]
+            v = tags[0] if r4.random() < 0.8 else '"%s"' % tags[0]
+            args.append(("str", v) if r4.random() < 0.5 else ("pair", v, r4.random() < 0.5))
+        cases = [(carg(a), impl_ser_parse(a), {"kind": "ser-parse", "arg": list(a)}) for a in args]
+        _corr_str("ser-parse", "obs_ser_parse", cases, "etag_arg")
+        cnt = 0
+        for a in args:
+            r = oracle_ser_parse(a)
+            cnt += 1
+            if r:
+                ctx.fail(r[0], r[1], {"kind": "ser-parse", "arg": list(a)}, True, "ser-parse")
+        ctx.oracle_count("ser-parse", cnt, cnt)
+
+    stage('ser-parse', corr_ser_parse)
 
     def corr_if_range():
         # 5. request.if_range and `resp in request.if_range`
@@ -1788,6 +1963,11 @@ def run(ctx):
         "and wild ones such as ';', LF, NEL, NBSP, U+3000, none), one-edit mutants and random strings over a quote-heavy alphabet; "
         "the model's findall/match for BOTH live patterns, the two getters with membership probes, Response.etag set/get, raw "
         "ETag headers and If-Range (parse_date replayed from recorded results) are compared in Coq with webob's observations. "
+        "str-roundtrip: AnyETag, NoETag and ETagMatcher lists of 0..6 tags (tags over {a b , SP W/ \\ * e-acute y-diaeresis U+0080 ~ ! # TAB w/ /} "
+        "incl. the empty tag; every 5th list wild: DQUOTE, LF, CR, controls, U+3000): str(m), ETagMatcher.parse(str(m)) in both modes, "
+        "request.if_match = m / request.if_none_match = m (stored text, getter answer, membership) vs matcher_str / etag_fset; "
+        "ser-parse: serialize_etag_response -> parse_etag_response called directly; each followed by the statement itself on the real "
+        "code (quote-free tags: same tags in the same order, t in parse(str(m)) iff t in m). "
         "oracle: lists-exhaustive = every list of <=2 tags (tags of length <=2 over {a , SP \\ e-acute}) and <=3 tags (length <=1) "
         "x weak/strong x every RFC separator spelling (OWS , OWS incl. empty elements); lists-random = up to 6 tags with lead/"
         "trail; membership must equal the rendered tag list (probes: every tag, its neighbours by one character, quoted forms); "
